@@ -142,8 +142,22 @@ def matchStr : Nat → String → V → Bs → MRes
       | some r => .ok r
       | none =>
         match lookup s bs with
-        | some b => matchF n b f bs
+        | some b => matchBound n b f bs
         | none => .ok [(s, f) :: bs]
+
+/-- a bound value: one that looks like a variable is compared as a constant, anything else is
+    re-used as a sub-pattern -/
+def matchBound : Nat → V → V → Bs → MRes
+  | 0, _, _, _ => .diverge
+  | n+1, b, f, bs =>
+    match b with
+    | .str t =>
+      if isVar t then
+        match f with
+        | .str u => if t = u then .ok [bs] else .ok []
+        | _ => .ok []
+      else matchF n b f bs
+    | _ => matchF n b f bs
 
 /-- the `case map[string]interface{}` arm -/
 def matchObj : Nat → List (String × V) → V → Bs → MRes
